@@ -1,7 +1,7 @@
 (** C13: proofs about the wire-level visitor model (Complete/WireVisit.v). *)
 From Coq Require Import List NArith ZArith Bool Lia Arith.
 Import ListNotations.
-From BBS Require Import Complete.WireVisit.
+From BBS Require Import Generated.Consts Complete.WireVisit.
 Local Open Scope N_scope.
 
 (** ** Varints *)
@@ -410,3 +410,8 @@ Proof.
   2:{ unfold max_int64 in Hlen. change (2 ^ 64) with 18446744073709551616. lia. }
   cbn [fst snd]. rewrite app_nil_r. reflexivity.
 Qed.
+
+(** The model's header window is the code's br.Peek(n) (regenerated constant):
+    a change of that literal in pkg/util/proto.go breaks this proof. *)
+Lemma peek_size_is_modelled : c13_peek_size = 32%nat.
+Proof. reflexivity. Qed.
